@@ -18,6 +18,18 @@ C04 = _c04()
 TRIE_SETS = ("multibyte",)
 
 
+def _c08():
+    sp = importlib.util.spec_from_file_location("spec_C08_for_c03", os.path.join(HERE, "..", "C08", "spec.py"))
+    m = importlib.util.module_from_spec(sp)
+    sp.loader.exec_module(m)
+    return m
+
+
+C08 = _c08()
+# edit batches with unchanged text before AND after the edit: the size resolve_edits reports (what commit compares with the limit)
+SIZE_BATCHES = ("start_longer", "mid_delete")
+
+
 def generate(ctx):
     tpl = open(os.path.join(HERE, "..", "C04", "dic__lexicon__trie.rs")).read().replace("mod verif_c04", "mod verif_c03")
     p = C04.params(ctx)
@@ -28,7 +40,10 @@ def generate(ctx):
         m = re.match(r"    // key set (\w+):", blk)
         if m and m.group(1) in TRIE_SETS:
             keep.append(blk.replace("c04_lookup_", "c03_unchecked_reads_"))
-    return {"dic__lexicon__trie": tpl.replace("/*@GENERATED@*/", "\n".join(keep)).replace("/*@LEN@*/5", str(p["LEN"]))}
+    edit_tpl = open(os.path.join(HERE, "..", "C08", "input_text__buffer__edit.rs")).read().replace("/*@MOD@*/verif_c08", "verif_c03")
+    gens = [C08.gen_shape(n, s, e)[0].replace("c08_batch_", "c03_batch_size_") for (n, s, e, t) in C08.SHAPES if n in SIZE_BATCHES]
+    return {"input_text__buffer__edit": edit_tpl.replace("/*@GENERATED@*/", "\n\n".join(gens)),
+            "dic__lexicon__trie": tpl.replace("/*@GENERATED@*/", "\n".join(keep)).replace("/*@LEN@*/5", str(p["LEN"]))}
 
 
 def harnesses(ctx):
@@ -55,6 +70,13 @@ def harnesses(ctx):
         Harness("c03_created_shift", "analysis__created", ["CreatedWords::single", "CreatedWords::has_word", "CreatedWords::add_word"], "every i64 length >= 1",
                 kernel="C03-c no shift overflow in the created-length set", timeout_s=600, mem_gb=8),
     ]
+    for (n, s, e, t) in C08.SHAPES:
+        if n in SIZE_BATCHES:
+            hs.append(Harness("c03_batch_size_" + n, "input_text__buffer__edit", ["resolve_edits", "add_replace"],
+                              "edit batch %r %s over ANY previous offset map satisfying the invariant" % (s, [(a, b, r) for (a, b, r, k) in e]),
+                              kernel="C03-c the size resolve_edits reports - the number commit compares with the 65,535-byte limit - is the length of the whole rewritten text "
+                                     "(unchanged text before and after the edits included); the C08-b harness for this shape",
+                              assumptions=["edits sorted, non-overlapping, on character boundaries"], timeout_s=900, mem_gb=12))
     for name, (units, table, keys) in C04.compiled(ctx).items():
         if name not in TRIE_SETS:
             continue
@@ -75,6 +97,6 @@ MANIFEST = dict(
     text=("Kernel-level claim only ('never panics' for the whole pipeline is not decidable here): (a) the i32 cost accumulation of one Viterbi step cannot overflow or collide with the "
           "'disconnected' marker after up to 32,767 tokens with arbitrary i16 costs (beyond that: listed finding F-C03-1); (b) the unchecked connection-matrix, trie-unit and word-id-table reads "
           "stay inside their arrays for validated ids and for every short text; (c) u16 casts of boundaries/indices are lossless for every admitted length, the created-length set never shifts out "
-          "of range, and inputs beyond 49,149 bytes yield an error value before any work."),
+          "of range, inputs beyond 49,149 bytes yield an error value before any work, a committed edit batch whose reported size exceeds 65,535 bytes is an error that leaves the buffer unchanged, and the size resolve_edits reports is the length of the whole rewritten text (two batch shapes, any previous offset map)."),
     note="Overflow and pointer checks are the assertions (Kani verifies the overflow-checks=on, debug-assertions=on build). Trusted: Kani/CBMC/cadical.",
 )
